@@ -5,8 +5,9 @@
   ATTRIB components with mandatory, pairwise distinct, non-empty labels, then OBJECT components each followed by
   at most one attribute component per template slot in template order (trailing ones may be left out), every
   attribute component either ABSATR or ATTRIB with the fields its descriptor bits announce, a defined
-  representation code (1..27), and — when the value bit is set — exactly `count` values of that code; nothing
-  may be left over.  `parseEflr_setBody`: every non-empty body produced by the model of
+  representation code (1..27), and exactly `count` values of that code — a component without the value bit is
+  accepted only with a count of 0 (an empty list): a value that is not there must be an absent attribute, never a
+  component announcing values it does not carry; nothing may be left over.  `parseEflr_setBody`: every non-empty body produced by the model of
   `EFLRSet._make_body_bytes` is accepted and decodes to the description it was produced from.
 -/
 import Dlismodel.Proofs.Eflr
